@@ -103,7 +103,12 @@ int main()
       av.push_back(0);
       static int aborts_survived = 0;
       int rc = 0, sig = 0, leaving = 0;
-      struct sigaction sa; memset(&sa, 0, sizeof sa); sa.sa_handler = inproc_handler; sa.sa_flags = SA_NODEFER;
+      static char* altstack = 0;
+      if (!altstack) {   // so that a stack overflow (unbounded recursion) can still be caught
+	altstack = (char*)malloc(1 << 16);
+	stack_t ss; ss.ss_sp = altstack; ss.ss_size = 1 << 16; ss.ss_flags = 0; sigaltstack(&ss, 0);
+      }
+      struct sigaction sa; memset(&sa, 0, sizeof sa); sa.sa_handler = inproc_handler; sa.sa_flags = SA_NODEFER | SA_ONSTACK;
       sigaction(SIGABRT, &sa, 0); sigaction(SIGSEGV, &sa, 0); sigaction(SIGBUS, &sa, 0); sigaction(SIGFPE, &sa, 0); sigaction(SIGALRM, &sa, 0);
       alarm((unsigned)(timeout_ms / 1000) + 1);
       if (sigsetjmp(inproc_jb, 1) == 0) {
